@@ -111,15 +111,20 @@ def models(tier, seed):
     core = [
         {"id": "obj_box_arc", "prefix": None,
          "traits": [{"name": "Foo", "methods": [M("get", "ref", (), "u32"), M("set", "mut", ("u32",)), M("mix", "mut", ("u8", "u64", "struct"), "u64"),
-                                                 M("finish", "own", (), "u32")]}],
-         "objects": [("Foo", "Box", "Arc")], "groups": []},
+                                                 M("finish", "own", (), "u32"), M("cancel", "own", ("u32",), "void")]}],
+         "objects": [("Foo", "Box", "Arc"), ("Foo", "Box", "")], "groups": []},
+        {"id": "same_signature_clash", "prefix": None,
+         "traits": [{"name": "Rr", "methods": [M("get", "ref", (), "u32")]},
+                    {"name": "Ww", "methods": [M("put", "mut", ("u32",)), M("get", "ref", (), "u32"), M("close", "own", (), "void")]}],
+         "objects": [("Rr", "Box", "Arc"), ("Ww", "Box", "Arc"), ("Ww", "Mut", "Arc")], "groups": []},
         {"id": "obj_all_containers", "prefix": None,
          "traits": [{"name": "Rd", "methods": [M("peek", "ref", ("slice",), "u64"), M("ptrs", "ref", ("ptr", "usize"), "ptr")]},
                     {"name": "Wr", "methods": [M("poke", "mut", ("u32", "bool")), M("emit", "ref", ("cb",), "bool")]}],
          "objects": [("Rd", "Box", ""), ("Rd", "Ref", ""), ("Rd", "Mut", "Arc"), ("Wr", "Box", "Arc"), ("Wr", "Mut", "")], "groups": []},
         {"id": "group_box_arc", "prefix": None,
          "traits": [{"name": "Base", "methods": [M("id", "ref", (), "u32"), M("bump", "mut", ("u32",), "u32")]},
-                    {"name": "Extra", "methods": [M("more", "ref", ("u64", "u8"), "u64"), M("eat", "own", ("u32",), "u32")]}],
+                    {"name": "Extra", "methods": [M("more", "ref", ("u64", "u8"), "u64"), M("eat", "own", ("u32",), "u32"),
+                                                   M("quit", "own", (), "void")]}],
          "objects": [], "groups": [("Grp", ["Base", "Extra"], "Box", "Arc"), ("Grp", ["Base", "Extra"], "Mut", "Arc")]},
         {"id": "clash_and_prefix", "prefix": "api",
          "traits": [{"name": "Aa", "methods": [M("run", "ref", ("u32",), "u32"), M("only", "ref", (), "u32")]},
